@@ -1,7 +1,8 @@
 (* C25 - merged short-circuit conditions route control as the original branches did.  Statements only;
    proofs in Dad/ShortCircuitProofs.v. *)
 From Coq Require Import ZArith List Bool.
-Require Import V.Lib.Val V.Lib.Result V.Dad.ShortCircuitModel V.Dad.ShortCircuitProofs.
+Require Import V.Lib.Val V.Lib.Result V.Dad.ShortCircuitModel V.Dad.ShortCircuitProofs V.Dad.ShortCircuitGraph.
+Require V.Dad.ShortCircuitDriver.   (* the stream chains of tools/props/c25.py evaluates the model of the driver *)
 Import ListNotations.
 Open Scope Z_scope.
 
@@ -43,3 +44,23 @@ Example C25_nonvacuous :
   neg (SC (SC (Leaf 0 false) (Leaf 1 false) true true) (Leaf 2 true) false false)
     = SC (SC (Leaf 0 true) (Leaf 1 true) false true) (Leaf 2 false) true false.
 Proof. split; reflexivity. Qed.
+
+(* ---- the merge itself, on graphs ---- *)
+(* one merge of short_circuit_struct on ANY graph of conditional blocks (any shape, loops included; blocks of exception handlers,
+   which Graph.preds leaves out; blocks already removed from the graph that others still point at): whichever of the four cases
+   applies under the precondition the code tests - the absorbed block is a node of the graph and is entered from one block only,
+   hidden predecessors included - every walk from every block ends at the same exit before and after the merge, and the merged
+   graph has no other walks *)
+Theorem C25_a_merge_keeps_every_walk : forall g a ab k g', edges_ok g -> fresh g ab -> apply_plan g a ab k = Some g' ->
+  forall env s, s <> ab ->
+  (forall n x, walk n g env s = Some x -> walk n g' env (if s =? a then ab else s) = Some x) /\
+  (forall n x, walk n g' env (if s =? a then ab else s) = Some x -> exists m, walk m g env s = Some x).
+Proof. exact planned_merge_is_sound. Qed.
+Print Assumptions C25_a_merge_keeps_every_walk.
+(* with the precondition of the code before the repair db98cb62 (the visible predecessors only) the statement is false: the witness *)
+Theorem C25_visible_predecessors_are_not_enough :
+  entered_from_one_visible_block w_graph 2 = true /\ entered_from_one_block w_graph 2 = false /\
+  walk 5 w_graph (fun _ => true) 0 = Some 102 /\
+  walk 5 (merge w_graph 1 2 3 (SC (Leaf 1 false) (Leaf 2 false) true true) 102 100 true [100; 102]) (fun _ => true) 0 = Some 100 /\
+  apply_plan w_graph 1 3 AndElse = None.
+Proof. exact visible_predecessors_are_not_enough. Qed.
